@@ -147,6 +147,29 @@ let dp (lines : string list) =
             pr_result "Q" qid r;
             if spec = 1 then pr_result "S" qid (spec_execute (Hashtbl.find datasets ds) q);
             go rest
+          | "QVAL" ->
+            let qid = next c in
+            let k = next_int c in
+            let dss = List.init k (fun _ -> next c) in
+            let w = writer_of (next c) in
+            let pre = (next c = "preload") in
+            let e = next_expr c in
+            if next c <> "GB" then failwith "expected GB";
+            let m = next_int c in
+            let gb = List.init m (fun _ -> next_str c) in
+            (* indexes that could not be built/opened are skipped on both sides *)
+            let q = ref { qv_expr = e; qv_group_by = gb; qv_hidden = [] } in
+            List.iteri (fun j ds ->
+              match get_index ds w pre with
+              | Ok ix ->
+                let (r, q') = m_execute_q ix !q in
+                q := q';
+                pr_result "QV" (Printf.sprintf "%s.%d" qid j) r
+              | Err -> pr "QV %s.%d ERR\n" qid j
+              | Panic -> pr "QV %s.%d PANIC\n" qid j
+              | Hang -> pr "QV %s.%d HANG\n" qid j) dss;
+            pr "QVF %s SAME\n" qid;
+            go rest
           | "SCHEMA" ->
             let qid = next c in let ds = next c in let w = writer_of (next c) in
             (match get_index ds w false with
